@@ -120,6 +120,8 @@ func (r *rdbdriver) findMapInSortedData(domain, mtype []byte, context Context) (
 	copy(k[len(mtype):], reversedZone)
 
 	prefixLen := len(mtype)
+	// length of the labels of the name being probed, without the terminating \0
+	curLen := len(reversedZone) - 1
 
 	for {
 		copy(k[len(k)-len(suffix):], suffix)
@@ -136,6 +138,11 @@ func (r *rdbdriver) findMapInSortedData(domain, mtype []byte, context Context) (
 			break
 		}
 
+		if curLen == 0 {
+			// the root name (or the root wildcard) was the last candidate
+			break
+		}
+
 		if len(foundKey) < prefixLen ||
 			!bytes.Equal(foundKey[:prefixLen], k[:prefixLen]) {
 			// reached end of maps data segment
@@ -144,14 +151,18 @@ func (r *rdbdriver) findMapInSortedData(domain, mtype []byte, context Context) (
 
 		foundLabel := foundKey[prefixLen : len(foundKey)-1]
 		length := findCommonLongestPrefix(reversedZone, foundLabel)
-		if length == 0 {
-			break
+		if length > curLen {
+			// same name with the other suffix (a wildcard map never covers its
+			// own base name): continue with the parent
+			length = getLengthWithoutLastLabel(reversedZone, curLen+1) - 1
 		}
 
-		// k already has necessary data - we just need to cut it at proper point
+		// k already has necessary data - we just need to cut it at proper point;
+		// when no label is shared this is the wildcard map of the root
 		k[prefixLen+length] = 0
 		k = k[:prefixLen+length+1+len(suffix)]
 		suffix = wildcardKeyElement
+		curLen = length
 	}
 
 	return mapID, err
